@@ -195,8 +195,33 @@ func TestC20WriteConforms(t *testing.T) {
 		if kind != cache.CAS {
 			key = gen.SHA([]byte("k"))
 		}
-		if err := s.Cache.Put(context.Background(), kind, key, b.Size, bytes.NewReader(b.Data)); err != nil {
-			t.Fatal(err)
+		// the file is written by an upload, or by a fetch from the backend (the
+		// request then may or may not state the size)
+		origin := rapid.SampledFrom([]string{"upload", "upload", "fetch-size-known", "fetch-size-unknown"}).Draw(t, "origin")
+		if origin == "upload" {
+			if err := s.Cache.Put(context.Background(), kind, key, b.Size, bytes.NewReader(b.Data)); err != nil {
+				t.Fatal(err)
+			}
+		} else {
+			st := b.Data
+			if kind == cache.CAS && storage == "zstd" {
+				st = casfmt.Encode(b.Data, gen.Chunk, func(x []byte) []byte { return gen.ZstdGo(x, 1, false) })
+			}
+			px.Set(kind, key, fproxy.Obj{Stored: st, Logical: b.Size})
+			size := b.Size
+			if origin == "fetch-size-unknown" {
+				size = -1
+			}
+			rc, _, err := s.Cache.Get(context.Background(), kind, key, size, 0)
+			if err != nil || rc == nil {
+				t.Fatalf("fetch through the backend failed: %v", err)
+			}
+			got, _ := io.ReadAll(rc)
+			rc.Close()
+			if !bytes.Equal(got, b.Data) {
+				t.Fatalf("fetch through the backend returned other bytes")
+			}
+			E.Label("written-by=" + origin)
 		}
 		px.Wait()
 		files := stack.ListFiles(s.Dir)
@@ -241,6 +266,17 @@ func TestC20WriteConforms(t *testing.T) {
 			t.Fatalf("file name %s does not encode (keyspace=%s hash=%s size=%d v1=%v)", rel, kind, key, b.Size, wantV1)
 		}
 		check("file on disk", raw)
+		if origin != "upload" {
+			// the name must also be one the loader accepts: restart on the directory
+			s2, err := stack.New(stack.Opts{Storage: storage, Zstd: codec, Dir: s.Dir, NoServers: true})
+			if err != nil {
+				t.Fatalf("restart on a directory holding a backend-fetched file failed: %v: %s", err, ctxs)
+			}
+			if ok, _ := s2.Cache.Contains(context.Background(), kind, key, b.Size); !ok {
+				t.Fatalf("backend-fetched entry is gone after a restart: %s", ctxs)
+			}
+			return
+		}
 		puts := px.PutsCopy()
 		if len(puts) != 1 {
 			t.Fatalf("accepted upload handed to the backend %d times", len(puts))
